@@ -35,8 +35,8 @@ Definition pinned_shapes : list (string * string) := [
   ("functionNumber :: double (XalanNode *, XPathExecutionContext &) const", "6408060ae81027fd");
   ("functionPosition :: double (XalanNode *, XPathExecutionContext &) const", "a320406798a8c65e");
   ("functionRound :: double (XalanNode *, XPath::OpCodeMapPositionType, XPathExecutionContext &) const", "60480d72d97dcfff");
-  ("functionStringLength :: double (XalanNode *, XPath::OpCodeMapPositionType, XPathExecutionContext &) const", "8230a073fc8a0cd3");
-  ("functionStringLength :: double (XalanNode *, XPathExecutionContext &) const", "300614962fe57f3d");
+  ("functionStringLength :: double (XalanNode *, XPath::OpCodeMapPositionType, XPathExecutionContext &) const", "abf912dc03b0f829");
+  ("functionStringLength :: double (XalanNode *, XPathExecutionContext &) const", "ac1a3765ee5567b9");
   ("functionSum :: double (XalanNode *, XPath::OpCodeMapPositionType, XPathExecutionContext &) const", "36dd6a7b2d788d3d");
   ("getNumericOperand :: double (XalanNode *, XPath::OpCodeMapPositionType, XPathExecutionContext &) const", "8364b9f6389e3ab5");
   ("group :: const XObjectPtr (XalanNode *, XPath::OpCodeMapPositionType, XPathExecutionContext &) const", "0535452ea2a6ef52");
